@@ -250,6 +250,9 @@ func (t *TokenWallet) GetAsset() string {
 
 func (t *TokenWallet) GetNetwork() string {
 	if t.chain == "btc" {
+		if n := t.p.N.BtcNetwork; n != "" {
+			return n
+		}
 		return "regtest"
 	}
 	return ""
